@@ -272,6 +272,8 @@ def render(body, kind):
     head = {"coro": "async def prog(rt):", "agen": "async def prog(rt):",
             "gen": "def prog(rt):", "func": "def prog(rt):"}[kind]
     r.emit(0, head)
+    # a local bound to None: a context whose manager object is (momentarily) unknown must not be named after it
+    r.emit(1, "z = None")
     if kind == "agen" and not has(body, ("susp",)):
         # make sure it is an async generator even without a yield in the body
         r.emit(1, "if rt.never: yield None")
